@@ -33,8 +33,6 @@ PROPS = {
         trusted=RECEIVER_TRUST,
         assumptions=["end-of-partition signals name partitions 0..n-1 of the topic; types without '-' (C12's restriction); "
                      "a JSON value of the right shape always decodes (e.g. {} decodes to the empty message)"],
-        not_yet_proved=["C10 bridge: specRun on the model's own deliveries (model satisfies the Spec monitor for every history) — needs a permutation "
-                        "argument between the insertion-ordered buffer and `latest`; the clause is instead proved on the buffer lookup (catching_up, release)"],
     ),
     "C12": dict(
         components=[("receiver", 2000, 100000)],
@@ -72,8 +70,6 @@ PROPS = {
         assumptions=["structurally complete files (source and nodes present); error handlers are not part of the processing tree for the id clause "
                      "(the code does not check their ids); `children: []` is never written for handlers",
                      "a sink with a child makes config.Read panic instead of returning an error: counted as 'not accepted' (model outcome crash)"],
-        not_yet_proved=["completeness: consistent c -> validate c = ok (only soundness accept_sound + accepted_spine_unique are proved; "
-                        "completeness is covered by the Spec oracle clause 'consistent-config-rejected' on generated files)"],
     ),
     "C07": dict(
         components=[("recovery", 1500, 50000)],
@@ -106,8 +102,6 @@ PROPS = {
                  "(round-trip hypothesis); the harness supplies Go's ParseFloat of each configured string"],
         assumptions=["parameter keys/values drawn from an alphabet without the harness separators (space, tab, '=', ',')",
                      "NaN bounds/defaults are outside the quantifier (compared model-vs-code only)"],
-        not_yet_proved=["atoi (itoa n) = some n for every int64 n (proved by kernel evaluation on 12 boundary values only: atoi_itoa_samples; "
-                        "the general statement is covered by the correspondence stream 'atoi'/'int')"],
     ),
     "C08": dict(
         components=[("tracker", 2000, 100000)],
